@@ -31,6 +31,12 @@ AcctOut(u, l, n) == ObjV("Account", <<u, Leaf("opensesame"), l, n>>)
 D3 == {Case("D3", "wrapped", <<F("a", Acct, 0, 1)>>, <<AcctIn(Leaf(u), Leaf("5"), n)>>, <<Acct>>, <<AcctOut(Leaf(u), Leaf("5"), n)>>) : u \in {"ann", "bob"}, n \in {Leaf("hello"), Nil}}
       \cup {Case("D3", "wrapped", <<F("xs", Arr(Acct), 0, 1), F("k", Prim("Integer"), 0, 1)>>, <<SeqV(<<AcctIn(Leaf("ann"), Leaf("5"), Leaf("hello")), AcctIn(Leaf("bob"), Leaf("7"), Leaf("x"))>>), Leaf("5")>>,
                   <<Arr(Acct)>>, <<SeqV(<<AcctOut(Leaf("bob"), Leaf("7"), Leaf("x"))>>)>>)}
+\* D5: an enumeration (the value travels as its name, a string) as argument, return value, member and array item
+Color == [k |-> "enum", name |-> "Color", values |-> <<"red", "green">>]
+Paint == Obj("Paint", "tns", <<F("c", Color, 0, 1), F("n", Prim("Integer"), 0, 1)>>)
+D5 == {Case("D5", "wrapped", <<F("c", Color, 0, 1)>>, <<Leaf(x)>>, <<Color>>, <<Leaf(y)>>) : x \in {"red", "green"}, y \in {"red", "green"}}
+      \cup {Case("D5", "wrapped", <<F("p", Paint, 0, 1)>>, <<ObjV("Paint", <<Leaf("green"), Leaf("5")>>)>>, <<Paint, Arr(Color)>>,
+                  <<ObjV("Paint", <<Leaf("red"), Nil>>), SeqV(<<Leaf("red"), Leaf("green"), Leaf("red")>>)>>)}
 \* (bare styles and SOAP headers have no counterpart in dict documents)
-DictCases == {Share(c, FALSE) : c \in T1 \cup T2 \cup T3 \cup T4 \cup T5 \cup T6 \cup T6b \cup T7 \cup D1 \cup D3} \cup D2
+DictCases == {Share(c, FALSE) : c \in T1 \cup T2 \cup T3 \cup T4 \cup T5 \cup T6 \cup T6b \cup T7 \cup D1 \cup D3 \cup D5} \cup D2
 =============================================================================
